@@ -123,6 +123,9 @@ type Path struct {
 	redirectVals   map[string]value
 	sleepHook      func()
 	pubs           []pubRec
+	dhs            []dhRec
+	sleepBlocks    bool
+	eagerOffsets   bool
 }
 
 type sealRec struct {
@@ -185,6 +188,9 @@ func (p *Path) assertPC(t *Term) {
 func (p *Path) feasible(t *Term) bool {
 	if t.isConst() {
 		return t.val != 0
+	}
+	if p.eng.stopped.Load() {
+		panic(abortPath{kind: "stop", msg: "exploration stopped"})
 	}
 	r := p.sol.Check(p.relevantLits(t)...)
 	switch r {
@@ -397,16 +403,24 @@ func (p *Path) checkAssert(cond *Term) (string, map[string]uint64) {
 		p.fresh++
 		os.WriteFile(fmt.Sprintf("%s/q-%d-%d.smt2", d, os.Getpid(), p.fresh), []byte(scr), 0644)
 	}
+	// all portfolio solvers at once; the first decisive verdict wins
+	type pr struct{ kind, verdict string }
+	ch := make(chan pr, len(p.eng.portfolio))
 	for _, k := range p.eng.portfolio {
-		rr := OneShot(k, scr, p.eng.assertTimeout)
-		if rr == "unsat" {
-			return "unsat", nil
-		}
-		if rr == "sat" {
-			return "sat", map[string]uint64{}
+		go func(k string) { ch <- pr{k, OneShot(k, scr, p.eng.assertTimeout)} }(k)
+	}
+	verdict := "unknown"
+	for range p.eng.portfolio {
+		r := <-ch
+		if r.verdict == "unsat" || r.verdict == "sat" {
+			verdict = r.verdict
+			break
 		}
 	}
-	return "unknown", nil
+	if verdict == "sat" {
+		return "sat", map[string]uint64{}
+	}
+	return verdict, nil
 }
 
 // pcSat checks every independent component of the path condition.
